@@ -159,6 +159,25 @@ CLAIMED = {
         'must give the same exported text.',
         'Trusted: TLC; the generator; openpyxl for writing the source files.',
         'DESIGN.md 4/C09'),
+    'C15': (
+        'TLC model checking of Complete.tla (Needs closure vs the work-list '
+        'machine of complete() under every pop order) + replay of '
+        'from_ranges() on generated workbooks against Sem and the full model '
+        '+ TLC validation of what each real run loaded (hook H7)',
+        'Complete.tla defines Needs(W, outs) and transcribes the work-list of '
+        'ExcelModel.complete() (stack, done, load a rectangle, push the '
+        'inputs of every newly registered cell, anchors of array formulas) '
+        'with the pop order left open; TLC checks ClosureComplete, '
+        'LoadedArePopulated and Termination for every pop order, and that '
+        'the pinned behaviour (anchors not pushed) violates ClosureComplete. '
+        'Every generated (workbook, outputs) is written to .xlsx and built '
+        'with from_ranges(*outs).finish(): the outputs must equal Sem(W) and '
+        'the fully loaded model; complete() and finish() applied again must '
+        'leave nodes, edges and results unchanged; the cells the run '
+        'registered (hook H7) must include Needs(W, outs) (CompleteTrace).',
+        'Trusted: TLC; the generator; whole-column references are not '
+        'generated.',
+        'DESIGN.md 4/C15'),
     'C18': (
         'TLC model checking of ShuntingYard.tla/Grammar.tla (every token '
         'sequence ends acc or rej; acc only if the grammar accepts) and '
